@@ -154,7 +154,10 @@ func (d *DID) AdvanceRecover(nextRec, nextUpd *Key) {
 // ForgedKinds enumerates the unauthorised variants of C01.
 var ForgedKinds = []string{"otherkey", "forgedsig", "sigflip", "payload", "revealmismatch",
 	// a bad signature combined with a second defect (checks must not be reordered around early returns)
-	"forgedsig+swapdelta", "forgedsig+nodelta", "forgedsig+disabled", "forgedsig+failpatch"}
+	"forgedsig+swapdelta", "forgedsig+nodelta", "forgedsig+disabled", "forgedsig+failpatch",
+	// the request reveals the legitimate key, the signed part is the attacker's and consistent in itself (own key,
+	// own key's reveal value where the signed data carries one)
+	"revealmismatch+signedreveal"}
 
 // Forge makes an unauthorised variant of the given type against the current keys.
 func (d *DID) Forge(ty operation.Type, kind string, n int) Spec {
@@ -194,6 +197,11 @@ func (d *DID) Forge(ty operation.Type, kind string, n int) Spec {
 		s.Tamper = TSigFlip
 	case "payload":
 		s.Tamper = TPayload
+	case "revealmismatch+signedreveal":
+		s.SignedKey, s.SignWith, s.SignedReveal = stranger, stranger, stranger
+		if s.NextRec == stranger.Commitment(d.Code) {
+			s.NextRec = attackerNext.Commitment(d.Code)
+		}
 	case "revealmismatch":
 		s.SignedKey, s.SignWith = stranger, stranger
 		if s.NextRec == stranger.Commitment(d.Code) {
